@@ -42,9 +42,7 @@ CFG = """INIT Init
 NEXT Next
 CONSTANTS
   MaxLen = {maxlen}
-  SmallLen = {smalllen}
-  BigVal = {bigval}
-  SmallVal = {smallval}
+  MaxSum = {maxsum}
   Bins = {bins}
   EssPct = {ess}
   MarginInv = 1000000000
@@ -247,8 +245,8 @@ def replay_group(job):
 # --------------------------------------------------------------------------- main part
 def tier_constants(tier):
     if tier == "quick":
-        return dict(maxlen=4, smalllen=3, bigval=3, smallval=2, bins="{2, 3, 10}", ess="{50, 90, 99}")
-    return dict(maxlen=5, smalllen=3, bigval=4, smallval=2, bins="{2, 3, 10}", ess="{50, 90, 99}")
+        return dict(maxlen=4, maxsum=4, bins="{2, 3, 10}", ess="{50, 90, 99}")
+    return dict(maxlen=5, maxsum=6, bins="{2, 3, 10}", ess="{50, 90, 99}")
 
 
 def component_part(ck) -> dict:
@@ -262,7 +260,7 @@ def component_part(ck) -> dict:
     cov = {"states": 0, "transitions": 0, "replays": 0, "distinct_nontrivial": 0, "posterior_constants": consts}
 
     # ---- 2. the code-shaped variant of the pinned defect must be refuted (non-vacuity of the row clauses)
-    small = dict(consts, maxlen=2, smalllen=2, bigval=2, smallval=2, bins="{2}", ess="{90}")
+    small = dict(consts, maxlen=2, maxsum=3, bins="{2}", ess="{90}")
     rs = tlc.run_tlc("Posterior", cfg(small, "stale_logw", False))
     cov["states"] += rs.distinct
     cov["transitions"] += rs.generated
